@@ -13,12 +13,14 @@ from mc.oracles import wcs_zenithal as wz
 PROPERTY = "C13"
 LEVEL = "exploration"
 SHARDS = 16
-RULE = ("every sequence of length 1..2 (quick) / 1..3 (thorough) over an alphabet of nine source archetypes, the k-th "
-        "letter placed on the k-th of three fixed, well separated slots of a 128x128 image, x {noise free, one FIXED "
-        "dyadic noise realisation} x {forced scalar rms/bkg, rms/bkg supplied as files with a smooth non-zero "
-        "background} ; every scene is run with all four (nopositive, nonegative) settings on the image I (background "
-        "B) AND on the exactly negated image -I (background -B): eight real blind source-finding runs per case; "
-        "non-trivial = the both-polarities catalogue of the scene has at least one component; distinct = distinct "
+RULE = ("every sequence of length 1..2 (quick) / 1..3 (thorough) over an alphabet of nine source archetypes (isolated point "
+        "source + / -, extended + / -, blend of two bright positive summits, blend of a bright and a 10 sigma negative "
+        "summit, a + and a - source on neighbouring islands, a 5.5 sigma source, a 2 pixel island), the k-th letter placed "
+        "on the k-th of three fixed, well separated slots of a 128x128 image, x {noise free, one (quick) / three "
+        "(thorough) FIXED dyadic noise realisations} x {forced scalar rms/bkg, rms/bkg supplied as files with a smooth "
+        "non-zero background}; every scene is run with all four (nopositive, nonegative) settings on the image I "
+        "(background B) AND on the exactly negated image -I (background -B): eight real blind source-finding runs per "
+        "case; non-trivial = the both-polarities catalogue of the scene has at least one component; distinct = distinct "
         "(sequence, noise, rms mode)")
 ASSUMPTIONS = ["oracle = the metamorphic relations of the property statement only: (a) run(-I,-B) is run(I,B) with peak and "
                "integrated flux (and the reported background) negated, everything else equal; (b) positive-only and "
@@ -26,12 +28,20 @@ ASSUMPTIONS = ["oracle = the metamorphic relations of the property statement onl
                "(c) excluding both polarities gives an empty catalogue",
                "all pixel values (sources, noise, background) are rounded to multiples of 2^-16 and are < 2 in modulus, so the "
                "float32 FITS files hold them exactly and image - background is exact: -I is the exact negative of I at "
-               "every stage before the fit",
-               "clause (a) tolerances: 1e-6 relative (pa 1e-4 deg absolute), components paired by sky position (nearest "
-               "neighbour within 0.5 pixel, one to one); island/source numbers compared as an order only; uuid, "
-               "ra_str/dec_str, psf_* and residual_* columns are not compared in clause (a)",
+               "every stage before the fit (verified: island pixels and initial parameters are exact mirrors)",
+               "clause (a): components paired by sky position (nearest neighbour within 0.5 pixel, one to one, same count); "
+               "flags, background (negated) and local_rms to 1e-6 relative; a fitted column (ra, dec, peak_flux, int_flux, a, "
+               "b, pa) agrees when it differs by <= 1e-6 relative (pa 1e-4 deg) OR by <= 1e-3 of its reported standard "
+               "error: the two fits start from mirror images only to float32 round-off (Aegean hands float32 amplitudes "
+               "and bounds to lmfit, whose bound transform is then evaluated in float32) and a least-squares fit with "
+               "ftol = 1.5e-8 only determines a parameter to about sqrt(ftol * npix) ~ 3e-4 standard errors; err_* columns "
+               "agree to max(1e-6, 10 * T) relative, T <= 1e-3 being the largest displacement of a fitted column of that "
+               "component in standard errors; the evidence records how many components needed the second alternative "
+               "and the largest T",
+               "island/source numbers compared as an order only; uuid, ra_str/dec_str, psf_* and residual_* columns are not "
+               "compared in clause (a)",
                "clause (b) demands exact equality of every catalogue column except uuid (the three runs fit the same "
-               "pixels; the filter is applied afterwards)",
+               "pixels in the same process; the filter is applied afterwards)",
                "the mixed-sign archetype keeps the two signs on separate islands (16 pixel separation); one island "
                "containing pixels of both signs is outside this check",
                "no claim between lattice points"]
@@ -43,7 +53,8 @@ SIGMA = 1.0 / 64
 Q = 65536.0                      # every pixel value is a multiple of 1/Q
 SLOTS = [(30.25, 32.5), (34.5, 94.25), (94.75, 62.0)]
 ALPHABET = ["pos_point", "neg_point", "pos_ext", "neg_ext", "blend_pp", "blend_nn", "mixed", "faint", "tiny"]
-NOISE = ["none", "real0"]
+NOISE_Q = ["none", "real0"]
+NOISE_T = ["none", "real0", "real1", "real2"]
 RMSMODES = ["forced", "files"]
 POLARITIES = [(False, False), (False, True), (True, False), (True, True)]     # (nopositive, nonegative)
 FITTED = [("ra", 1.0), ("dec", 1.0), ("peak_flux", -1.0), ("int_flux", -1.0), ("a", 1.0), ("b", 1.0), ("pa", 1.0)]   # column, sign under negation
@@ -62,7 +73,8 @@ def max_len(tier):
 
 
 def axes(tier, seed):
-    return dict(alphabet=ALPHABET, sequence_length=list(range(1, max_len(tier) + 1)), slots=SLOTS, noise=NOISE,
+    return dict(alphabet=ALPHABET, sequence_length=list(range(1, max_len(tier) + 1)), slots=SLOTS,
+                noise=NOISE_Q if tier == "quick" else NOISE_T,
                 rms_bkg=RMSMODES, polarity=[dict(nopositive=p, nonegative=n) for p, n in POLARITIES], image_sign=[+1, -1],
                 docov="True for every sequence of length 1 and every 5th longer case, else False",
                 sigma=SIGMA, pixel_quantum=1 / Q)
@@ -72,7 +84,7 @@ def cases(tier, seed):
     i = 0
     for n in range(1, max_len(tier) + 1):
         for seq in itertools.product(range(len(ALPHABET)), repeat=n):
-            for noise, mode in itertools.product(NOISE, RMSMODES):
+            for noise, mode in itertools.product(NOISE_Q if tier == "quick" else NOISE_T, RMSMODES):
                 yield "abc", dict(seq=[ALPHABET[k] for k in seq], noise=noise, rms=mode, docov=bool(n == 1 or i % 5 == 0))
                 i += 1
 
@@ -96,9 +108,12 @@ def build_scene(case, seed):
             gauss.append(pt(r, c, sgn))
         elif name in ("pos_ext", "neg_ext"):
             gauss.append(skygauss.source_at_pixel(hdr, r, c, sgn, 2.0 * BEAM_PX[0], 1.5 * BEAM_PX[1], 50.0))
-        elif name in ("blend_pp", "blend_nn"):
-            gauss.append(pt(r - 1.0, c - 3.0, sgn))
-            gauss.append(pt(r + 1.5, c + 3.0, 0.7 * sgn))
+        elif name == "blend_pp":          # two bright summits on one island
+            gauss.append(pt(r - 1.0, c - 3.0, 1.0))
+            gauss.append(pt(r + 1.5, c + 3.0, 0.7))
+        elif name == "blend_nn":          # a bright and a 10 sigma summit on one island (run negated too, like every scene)
+            gauss.append(pt(r - 1.0, c - 2.5, -1.0))
+            gauss.append(pt(r + 1.0, c + 2.5, -10 * SIGMA))
         elif name == "mixed":
             gauss.append(pt(r, c - 8.0, 1.0))
             gauss.append(pt(r, c + 8.0, -0.8))
